@@ -9,11 +9,13 @@ Open Scope N_scope.
    device state abstracts to the diagram's state *)
 Theorem C13_refines_diagram : forall (ops : list op) (kr kd : N), sim ops (fresh kr kd) RAwaiting.
 Proof. exact refines_diagram. Qed.
+Print Assumptions C13_refines_diagram.
 
 (* a signature payload is offered exactly while a prepared response has unsigned documents *)
 Theorem C13_payload_iff : forall s, reachable s ->
   (dev_next_payload (s_dev s) <> None <-> unsigned (s_dev s) <> []).
 Proof. exact payload_iff. Qed.
+Print Assumptions C13_payload_iff.
 
 (* the submitted signature is attached to the document whose payload was offered, which then
    stops being unsigned; nothing else changes in the signed list *)
@@ -24,11 +26,13 @@ Theorem C13_submit_pairs : forall (d : dev) id payload sg,
   exists rest, unsigned d = rest ++ [(id, payload)] /\ unsigned d' = rest /\
     signed_docs d' = signed_docs d ++ [(id, sg)].
 Proof. exact submit_pairs. Qed.
+Print Assumptions C13_submit_pairs.
 
 (* once a response has been prepared, it is ready exactly when no unsigned document remains *)
 Theorem C13_ready_iff : forall s, reachable s -> has_response (s_dev s) ->
   (dev_ready (s_dev s) = true <-> unsigned (s_dev s) = []).
 Proof. exact ready_iff. Qed.
+Print Assumptions C13_ready_iff.
 
 (* handed out exactly once, after which the device awaits the next request;
    retrieving when nothing is ready changes nothing *)
@@ -38,10 +42,12 @@ Theorem C13_retrieve_once : forall d : dev,
   | (d', None) => d' = d /\ dev_ready d = false
   end.
 Proof. exact retrieve_once. Qed.
+Print Assumptions C13_retrieve_once.
 
 Theorem C13_submit_noop : forall (d : dev) sg,
   (forall p, d_state d <> Signing p) -> dev_submit d sg = (d, []).
 Proof. exact noop_when_nothing_pending. Qed.
+Print Assumptions C13_submit_noop.
 
 (* a request that decrypts but is not a DeviceRequest yields a ready, retrievable response with
    status 11 (not CBOR) / 12 (not a DeviceRequest) and no documents *)
@@ -54,6 +60,7 @@ Theorem C13_error_response : forall (d : dev) c,
   exists m r, dev_retrieve d' = (set_state d' Awaiting, Some m) /\ response_of_wire m = Some r /\
     rs_docs r = [] /\ rs_status r = (match pl with PNotCbor => 11 | _ => 12 end).
 Proof. exact error_response. Qed.
+Print Assumptions C13_error_response.
 
 (* a response with nothing to sign is retrievable without inventing a signature *)
 Example C13_nothing_to_sign :
